@@ -1,7 +1,7 @@
 (* C18 — timestamped stream aggregates never go back in time and are carried forward. *)
 From stdpp Require Import gmap.
 From DS Require Import Base Decimal StreamValue Aggregators Outcome OutcomeProofs StepTheorems HistoryProofs HistoryLifts NvHistory.
-From DS Require BytesHistory.
+From DS Require BytesHistory PluginOutcomeBytes.
 Open Scope Z_scope.
 
 (* while the (stream, aggregator) pair stays referenced, a timestamped aggregate is kept, replaced by a strictly
@@ -55,3 +55,28 @@ Example C18_nv :
   o_aggs p3 !! (3, 1) = Some (nv_tsv (11 * s) 100) /\ o_aggs p4 !! (3, 1) = Some (nv_tsv (11 * s) 100) /\
   o_aggs p5 !! (3, 1) = Some (nv_tsv (14 * s) 100).
 Proof. vm_compute. repeat split; reflexivity. Qed.
+
+(* the three one-step laws ON THE WIRE (BytesHistory): one successful byte-level call of Plugin.Outcome *)
+Theorem C18_tsv_never_goes_back_on_the_wire : forall h check cf (b : BytesHistory.bevent) p t0 i0,
+  BytesHistory.check_typed check -> BytesHistory.bvalid h check cf b ->
+  o_aggs (BytesHistory.dec_or_initial cf (BytesHistory.bv_prev b)) !! p = Some (STsv t0 i0) ->
+  p ∈ referenced_pairs (o_defs (BytesHistory.dec_or_initial cf (BytesHistory.bv_next b))) ->
+  exists v, o_aggs (BytesHistory.dec_or_initial cf (BytesHistory.bv_next b)) !! p = Some v /\
+    (v = STsv t0 i0 \/ (exists t1 i1, v = STsv t1 i1 /\ t0 < t1) \/ match v with STsv _ _ => False | _ => True end).
+Proof. exact BytesHistory.tsv_never_goes_back_on_the_wire. Qed.
+Print Assumptions C18_tsv_never_goes_back_on_the_wire.
+Theorem C18_tsv_carried_when_aggregation_fails_on_the_wire : forall h check cf (b : BytesHistory.bevent) sid agg t0 i0 fn e rr obs,
+  BytesHistory.check_typed check -> BytesHistory.bvalid h check cf b ->
+  accept_observations (c_has_pred cf) (map (PluginOutcomeBytes.obs_of_bytes check) (BytesHistory.bv_obs b)) = Ok (rr, obs) ->
+  o_aggs (BytesHistory.dec_or_initial cf (BytesHistory.bv_prev b)) !! (sid, agg) = Some (STsv t0 i0) ->
+  (sid, agg) ∈ referenced_pairs (o_defs (BytesHistory.dec_or_initial cf (BytesHistory.bv_next b))) ->
+  agg_fun agg = Some fn -> fn (stream_obs obs sid) (c_f cf) = Err e ->
+  o_aggs (BytesHistory.dec_or_initial cf (BytesHistory.bv_next b)) !! (sid, agg) = Some (STsv t0 i0).
+Proof. exact BytesHistory.tsv_carried_when_aggregation_fails_on_the_wire. Qed.
+Print Assumptions C18_tsv_carried_when_aggregation_fails_on_the_wire.
+Theorem C18_unreferenced_dropped_on_the_wire : forall h check cf (b : BytesHistory.bevent) p v,
+  BytesHistory.check_typed check -> BytesHistory.bvalid h check cf b ->
+  o_aggs (BytesHistory.dec_or_initial cf (BytesHistory.bv_next b)) !! p = Some v ->
+  p ∈ referenced_pairs (o_defs (BytesHistory.dec_or_initial cf (BytesHistory.bv_next b))).
+Proof. exact BytesHistory.unreferenced_dropped_on_the_wire. Qed.
+Print Assumptions C18_unreferenced_dropped_on_the_wire.
